@@ -5,7 +5,7 @@ from .series_props import specs_evals, specs_product, specs_index, specs_solver,
 
 def check(tier, seed):
     d = Decision("C11", tier, seed)
-    specs = specs_index(tier) + specs_product(tier) + specs_evals(tier) + specs_solver(tier)
+    specs = specs_index(tier) + specs_product(tier) + specs_evals(tier) + specs_solver(tier) + [("contracts.frame", "unit_frame", {})]
     d.add_units(fold_canaries(run_units(specs)))
     d.assumptions += [
         "only synchronous exceptions raised by the callback are covered (any class, incl. KeyboardInterrupt raised by the callback); "
@@ -17,6 +17,9 @@ def check(tier, seed):
                      "entry is left in flight, the cache invariant holds, non-RuntimeErrors propagate unchanged and RuntimeErrors are chained.  "
                      "Generated evaluators and product_by_order hold no state besides cache deletions, which are value-neutral (C10).  The only other state kept "
                      "across requests is the built-in solver's record of validated block pairs: solve_sylvester_diagonal is proved to record a pair only after a successful "
-                     "check (obligation raise-leaves-pair-unrecorded), so a request that raised is not remembered as validated.")
+                     "check (obligation raise-leaves-pair-unrecorded), so a request that raised is not remembered as validated.  That these are the only "
+                     "states is itself an obligation: the frame unit lists every store site of the functions under contract, incl. every closure that serves as an eval "
+                     "callback (operator_to_BlockSeries/op_eval, the format converters, the solvers), and refutes any write to a captured object or rebinding of a "
+                     "nonlocal / global name that is not on the reviewed list.")
     d.run_battery("series_battery.py", ['fault'], "shapes <= (2,3), <= 2 infinite dimensions, orders <= 3, fixed list of index entries, 4x4 two-block problems; see replay/series_battery.py")
     return d.finish(level="proof", trusted_base=["contracts/series_index.py", "contracts/algorithm_evals.py"])
